@@ -505,6 +505,10 @@ class BasicNextPatcherVisitor(BasicConstructVisitor):
     def visit_next_statement(self, next_statement):
         if self.for_stack and len(next_statement.var_list.exp_list) == 0:
             next_statement.var_list.exp_list.append(self.for_stack.pop())
+        else:
+            for _ in next_statement.var_list.exp_list:
+                if self.for_stack:
+                    self.for_stack.pop()
 
 
 class BasicFunctionalExpressionPatcherVisitor(BasicConstructVisitor):
